@@ -54,6 +54,18 @@ Theorem C05_eph_never_blocks :
 Proof. intros. apply scan_eph_indep. Qed.
 Print Assumptions C05_eph_never_blocks.
 
+(* the same for a load-balancing publisher (splitter), endpoint by endpoint: forgetting the requests of the ephemeral listeners
+   changes neither who is evicted, nor the overall verdict, nor any endpoint's "everybody here has asked or is a listener" flag
+   and oldest id - an idle '?' listener on a worker's endpoint never vetoes that endpoint (only the request COUNT differs) *)
+From OF Require Import Proto.Sender_BalEph.
+Theorem C05_balanced_listener_never_vetoes :
+  forall tmin snap cl ds,
+    let '(cl1, ds1, o1) := scan true tmin snap cl ds [] in
+    let '(cl2, ds2, o2) := scan true tmin (map forget_listener_request snap) cl ds [] in
+    cl1 = cl2 /\ ds1 = ds2 /\ same_ready o1 o2.
+Proof. intros tmin snap cl ds. apply (scan_bal_eph_indep tmin snap cl ds [] []). exact I. Qed.
+Print Assumptions C05_balanced_listener_never_vetoes.
+
 (* Non-vacuity: one synchronized and one ephemeral client; only the synchronized one has asked for the
    next frame, the ephemeral one stays silent: the publish goes out. *)
 Theorem C05_nonvacuous :
